@@ -6,7 +6,11 @@ class) with lean/PM/Step.lean, including steps decoded from JSON.
 Search: on every applied step: failed result or ValueError, or a document accepted by `check()`
 AND by the independent spec validator; any other exception class is a violation.
 
-Second stream ("payload well-formedness", `apply_no_internal`): steps whose slices carry perturbed open
+Aimed: replace-around steps whose insertion point lies outside their slice (`insert` in (size, size + open_end], negative
+`insert` before an open start): refused by `Slice.insert_at` (second repair for C01) — validity oracle, exact tie for the
+non-negative ones (the model's positions are naturals), expectation "refused".
+
+Second stream ("payload well-formedness", `apply_no_internal'`): steps whose slices carry perturbed open
 depths / insert offsets and whose positions may lie outside the document.  Tie: `StepWF` / `StepOrdered`
 of lean/PM/StepWF.lean against their re-statement on the real objects (exact), and `apply` (exact) on the
 well-formed, ordered ones.  Oracle: a well-formed, ordered step must not end in an internal error; the
@@ -78,6 +82,11 @@ def gen_wf_probe(rng, info, doc, docs):
             return Slice(sl.content, _spine(sl.content, True), _spine(sl.content, False))
         return Slice(sl.content, max(0, sl.open_start + rng.choice([-1, 0, 1, 1, 2])),
                      max(0, sl.open_end + rng.choice([-1, 0, 1, 1, 2])))
+
+    def kept(a, b):
+        # the payload is still the slice as it was cut from a valid document (bending an open depth down turns a partly
+        # present node into a complete one: not a valid payload any more, outside the property's quantifier)
+        return a.open_start == b.open_start and a.open_end == b.open_end
     if isinstance(step, ReplaceAroundStep):
         sl = bend(step.slice)
         f, t, gf, gt = step.from_, step.to, step.gap_from, step.gap_to
@@ -87,7 +96,11 @@ def gen_wf_probe(rng, info, doc, docs):
         elif r < 0.35:
             f, t, gf, gt = pos(), pos(), pos(), pos()
         ins = step.insert if rng.random() < 0.4 else rng.randint(0, max(0, sl.size) + 2)
-        return ReplaceAroundStep(f, t, gf, gt, sl, ins, step.structure)
+        # the generator's wrapper slices (`<blockquote()>`) are valid only with the gap content in its place: with another
+        # insertion point the slice has to be valid by itself (closed, every node passes `check()`)
+        alone = sl.open_start == 0 and sl.open_end == 0 and all(
+            outcome(sl.content.child(j).check)[0] == "ok" for j in range(sl.content.child_count))
+        return ReplaceAroundStep(f, t, gf, gt, sl, ins, step.structure), kept(sl, step.slice) and (ins == step.insert or alone)
     if isinstance(step, ReplaceStep):
         f, t = step.from_, step.to
         r = rng.random()
@@ -95,7 +108,8 @@ def gen_wf_probe(rng, info, doc, docs):
             f, t = sorted([pos(), pos()])
         elif r < 0.3:
             f, t = pos(), pos()
-        return ReplaceStep(f, t, bend(step.slice), step.structure)
+        sl = bend(step.slice)
+        return ReplaceStep(f, t, sl, step.structure), kept(sl, step.slice)
     if isinstance(step, (AddMarkStep, RemoveMarkStep)):
         f, t = step.from_, step.to
         r = rng.random()
@@ -103,8 +117,70 @@ def gen_wf_probe(rng, info, doc, docs):
             f, t = sorted([pos(), pos()])
         elif r < 0.4:
             f, t = pos(), pos()
-        return type(step)(f, t, step.mark)
-    return step
+        return type(step)(f, t, step.mark), True
+    return step, True
+
+
+def block_runs(doc):
+    """(start position of the content of `parent`, parent, i) for every run of three consecutive non-leaf children
+    `i, i+1, i+2` of a node of `doc` (the document itself included)"""
+    out = []
+
+    def walk(node, start):
+        pos = start
+        kids = [node.child(j) for j in range(node.child_count)]
+        for i, ch in enumerate(kids):
+            if i + 2 < len(kids) and not any(k.is_leaf or k.is_text for k in kids[i:i + 3]):
+                out.append((start, node, i))
+            if not ch.is_leaf and not ch.is_text:
+                walk(ch, pos + 1)
+            pos += ch.node_size
+    walk(doc, 0)
+    return out
+
+
+def aimed_insert_outside(rng, doc):
+    """replace-around steps whose insertion point lies outside their slice, built so that everything else about the step
+    is in order (a peer can send one: `from_json` does not look at `insert`).  Three neighbouring block children
+    `c0 c1 c2` of some node; the gap is `c1`.
+      * open end: `from` before `c0`, `to` inside `c2`, slice `<c0'>` open 0/1 with `c0'` a copy of `c0` holding a prefix
+        of its children (often none: not valid content by itself, allowed — the node is open); `insert` in
+        (size, size + open_end]: the gap content lands *behind* the open node, the filled slice is open through `c1`
+        instead and `c0'` goes into the document as a complete node nobody looked at;
+      * open start, mirrored: `from` inside `c0`, `to` behind `c2`, slice `<c2'>` open 1/0, `insert` negative.
+    `Slice.insert_at` refuses both (second repair for C01); before it the step returned a schema-invalid document.
+    Returns [(step, kind)]; a step with a negative `insert` is outside the model's step type (positions are naturals)."""
+    runs = block_runs(doc)
+    if not runs:
+        return []
+    start, parent, i = rng.choice(runs)
+    off = [0]
+    for j in range(parent.child_count):
+        off.append(off[-1] + parent.child(j).node_size)
+    c0, c2 = parent.child(i), parent.child(i + 2)
+
+    def boundary(node):
+        k = rng.randint(0, node.child_count)
+        return k, sum(node.child(j).node_size for j in range(k))
+    out = []
+    # open end
+    k0 = rng.choice([0, 0, rng.randint(0, c0.child_count)])
+    sl = Slice(Fragment.from_(c0.copy(c0.content.cut_by_index(0, k0))), 0, 1)
+    _, b2 = boundary(c2)
+    f, t = start + off[i], start + off[i + 2] + 1 + b2
+    gf, gt = start + off[i + 1], start + off[i + 2]
+    for ins, kind in ((sl.size + 1, "beyond-open-end"), (sl.size + 1 + rng.randint(0, 2), "beyond-open-end+"),
+                      (sl.size, "at-size")):
+        out.append((ReplaceAroundStep(f, t, gf, gt, sl, ins, False), kind))
+    # open start
+    k2 = rng.choice([c2.child_count, c2.child_count, rng.randint(0, c2.child_count)])
+    sl = Slice(Fragment.from_(c2.copy(c2.content.cut_by_index(k2, c2.child_count))), 1, 0)
+    _, b0 = boundary(c0)
+    f, t = start + off[i] + 1 + b0, start + off[i + 3]
+    gf, gt = start + off[i + 1], start + off[i + 2]
+    for ins, kind in ((-1, "negative-open-start"), (-rng.randint(1, 3), "negative-open-start-"), (0, "at-zero")):
+        out.append((ReplaceAroundStep(f, t, gf, gt, sl, ins, False), kind))
+    return out
 
 
 def payload_valid(step, schema):
@@ -235,27 +311,38 @@ def run(ctx):
         del wreqs[:], wmetas[:]
 
     def wf_stream(info, d, docs):
+        val = validator(info.schema)
         for k in range(ctx.budget(8, 30)):
-            step = gen_wf_probe(rng, info, d, docs)
+            step, payload_kept = gen_wf_probe(rng, info, d, docs)
             kind = type(step).__name__
             wf, ordered = step_wf(step), step_ordered(step)
+            # `apply_no_internal'` / the exact tie of `apply` need `Slice.wf` only: an insertion point outside the slice is
+            # refused by `Slice.insert_at` (code and model alike)
+            swf = slice_wf(step.slice) if isinstance(step, (ReplaceStep, ReplaceAroundStep)) else True
             st, res = apply_outcome(step, d)
             sj = info.step(step)
             replay = {"schema": info.name, "doc": d.to_json(), "step": step.to_json(), "stream": "payload-wf",
                       "open": [getattr(getattr(step, "slice", None), "open_start", None),
                                getattr(getattr(step, "slice", None), "open_end", None)]}
-            ctx.case(["apply-wf", info.name, d.to_json(), sj], nontrivial=wf and ordered)
-            ctx.count(f"wf:{kind}:{'wf' if wf else 'illformed'}:{'ordered' if ordered else 'unordered'}:{st}")
+            ctx.case(["apply-wf", info.name, d.to_json(), sj], nontrivial=swf and ordered)
+            ctx.count(f"wf:{kind}:{'wf' if wf else ('insert-outside' if swf else 'illformed')}:{'ordered' if ordered else 'unordered'}:{st}")
             wreqs.append({"op": "stepWF", "step": sj})
             wmetas.append((replay, "stepWF", {"wf": wf, "ordered": ordered}))
-            if not (wf and ordered):
+            if st == "ok" and swf and ordered and payload_kept:
+                # the slice is as it was cut from a valid document: whatever the insertion point, the result is valid
+                stc, err = outcome(res.check)
+                prob = val.problem(res.to_json())
+                if stc != "ok" or prob:
+                    ctx.violation("invalid-result", "step returned a schema-invalid document: " + (prob or str(err)),
+                                  dict(replay, result=res.to_json()))
+            if not (swf and ordered):
                 if st == "internal":
-                    ctx.count("wf:excluded_internal:" + ("illformed" if not wf else "unordered"))
+                    ctx.count("wf:excluded_internal:" + ("illformed" if not swf else "unordered"))
                     # positions that lie inside the document, in whatever order, are inside the property's quantifier
                     # ("steps … whose positions lie inside the document"): dying with an internal error there is a violation
                     size = d.content.size
                     poss = [getattr(step, a) for a in ("from_", "to", "gap_from", "gap_to", "pos") if hasattr(step, a)]
-                    if wf and all(isinstance(x, int) and 0 <= x <= size for x in poss):
+                    if swf and all(isinstance(x, int) and 0 <= x <= size for x in poss):
                         ctx.violation("internal-error", f"Step.apply of a step whose positions lie inside the document (not in order) died with an internal error: {res}", replay)
                 continue
             if st in ("internal", "hang"):
@@ -333,6 +420,36 @@ def run(ctx):
                     ctx.violation("internal-error", f"Step.apply died with an internal error: {res}", replay)
                 reqs.append({"op": "apply", "s": info.lean_id, "doc": info.node(d), "step": sj})
                 metas.append((replay, st, info.node(res) if st == "ok" else None))
+            # aimed: insertion point outside the slice (beyond the open end / negative before the open start)
+            for _ in range(ctx.budget(2, 6)):
+                for step, akind in aimed_insert_outside(rng, d):
+                    if rng.random() < 0.3:
+                        stj, step2 = outcome(lambda: Step.from_json(schema, json.loads(json.dumps(step.to_json()))))
+                        if stj != "ok":
+                            ctx.count("aimed_insert_outside:from_json-refuses")
+                            continue
+                        step = step2
+                    st, res = apply_outcome(step, d)
+                    ctx.count(f"aimed_insert_outside:{akind}:{st}")
+                    replay = {"schema": info.name, "schema_spec_nodes": {n: {k2: v for k2, v in t.spec.items() if isinstance(v, (str, bool, int, dict))}
+                                                                         for n, t in schema.nodes.items()} if info.name == "random" else None,
+                              "doc": d.to_json(), "step": step.to_json(), "aimed": "insert-outside:" + akind}
+                    ctx.case(["apply", info.name, d.to_json(), step.to_json()])
+                    if st == "ok":
+                        stc, err = outcome(res.check)
+                        prob = val.problem(res.to_json())
+                        if stc != "ok" or prob:
+                            ctx.violation("invalid-result", "step returned a schema-invalid document: " + (prob or str(err)),
+                                          dict(replay, result=res.to_json()))
+                    elif st in ("internal", "hang"):
+                        ctx.violation("internal-error", f"Step.apply died with an internal error: {res}", replay)
+                    if step.insert > step.slice.size or step.insert < 0:
+                        if st == "ok":
+                            # `Slice.insert_at` refuses an insertion point outside the slice (model: `Slice.insertAt`)
+                            ctx.mismatch("aimed-insert-outside-expectation", replay, "refused", st)
+                    if step.insert >= 0:
+                        reqs.append({"op": "apply", "s": info.lean_id, "doc": info.node(d), "step": info.step(step)})
+                        metas.append((replay, st, info.node(res) if st == "ok" else None))
             if ctx.time_left() > 0:
                 wf_stream(info, d, docs)
         if len(wreqs) >= 8000:
